@@ -347,3 +347,59 @@ func skippedPrefix(fn *ssa.Function, lf *loopForm, at *ssa.BasicBlock) (int64, b
 	}
 	return best, found
 }
+
+// linTerms decomposes an integer value into a sum of recognised leaves and a
+// constant: coef[i] counts leaf i (leaves are tried in order; the loop
+// counter of lf, when given, is the implicit leaf "counter" with its constant
+// offset folded into k). Conversions are looked through. ok is false when
+// some summand is neither a leaf nor a constant.
+func linTerms(v ssa.Value, lf *loopForm, leaves ...func(ssa.Value) bool) (coef []int64, counter, k int64, ok bool) {
+	coef = make([]int64, len(leaves))
+	ok = true
+	var walk func(v ssa.Value, sign int64, d int)
+	walk = func(v ssa.Value, sign int64, d int) {
+		if d > 12 {
+			ok = false
+			return
+		}
+		if c, isC := ir.ConstInt(v); isC {
+			k += sign * c
+			return
+		}
+		if lf != nil {
+			if off, isCtr := counterOffset(lf, v); isCtr {
+				counter += sign
+				k += sign * off
+				return
+			}
+		}
+		for i, l := range leaves {
+			if l(v) {
+				coef[i] += sign
+				return
+			}
+		}
+		switch x := v.(type) {
+		case *ssa.Convert:
+			walk(x.X, sign, d+1)
+			return
+		case *ssa.ChangeType:
+			walk(x.X, sign, d+1)
+			return
+		case *ssa.BinOp:
+			switch x.Op {
+			case token.ADD:
+				walk(x.X, sign, d+1)
+				walk(x.Y, sign, d+1)
+				return
+			case token.SUB:
+				walk(x.X, sign, d+1)
+				walk(x.Y, -sign, d+1)
+				return
+			}
+		}
+		ok = false
+	}
+	walk(v, 1, 0)
+	return
+}
